@@ -243,9 +243,17 @@ static void *q_thread(void *arg)
 			continue;
 		usim_trace("op %d.%d %s q%d", me, i, opname[op->kind], op->a & 1);
 		if (legacy)
+		{
+			op_stall_begin(op);
 			do_legacy_op(op);
+			op_stall_end();
+		}
 		else
+		{
+			op_stall_begin(op);
 			do_op(me, op);
+			op_stall_end();
+		}
 	}
 	usim_quiet_vote();
 	return NULL;
@@ -281,6 +289,7 @@ void scen_wfcq(void)
 			uint32_t r = rnd(100);
 			op->a = rnd(2);
 			op->b = rnd(2);
+			op_stall_gen(op, 5, 8);
 			op->v = next_id++;
 			if (legacy) {
 				op->kind = (!may_consume || r < 55) ? OP_ENQ : OP_DEQ;
